@@ -173,7 +173,7 @@ PROPS = {
                 "constant-condition rules with and without no-loop, priorities incl. i32::MIN/MAX, on ReteUlEngine, TypedReteUlEngine and IncrementalEngine, each run in a child process under a 30 s watchdog; "
                 "non-trivial = at least one Next (agenda) / any loop case Engine code 3 of the fire_all stream is the incremental engine with every action issuing ActivateAgendaGroup (the focus moves to an empty group and falls back): the firings must be those of engine 2 and the call must return (10 s watchdog per case). tools/consts.py reads the three iteration bounds from the source and refuses a loop whose counter is assigned more than once.",
         "level_text": "Proved for every agenda state with distinct creation times: get_next_activation returns an eligible activation (no-loop, activation-group and lock filters) that is greatest for (salience desc, "
-                "earlier created) in its group, the pop loop equals 'best eligible + drop everything above', and every history of the five operations is observed exactly as the specification says; proved for every rule set: "
+                "earlier created) in its group, the pop loop equals 'best eligible + drop everything above', and every history of the five operations is observed exactly as the specification says; over whole histories (Proofs/ReteAgendaHistoryProofs.v, no side condition) an activation returned by get_next_activation is never a no-loop rule marked fired since the last reset, never a member of an activation group of which a member was marked fired since the last reset, never a lock-on-active activation of a group locked since the last reset; proved for every rule set: "
                 "each of the three fire_all loops ends within its iteration bound, the bounds being read from the current source (a missing bound makes the theorem fail). The harness confirms model = code per op and per run, with a hang watchdog.",
         "level_note": "Trusted: Coq kernel; model of rete/agenda.rs and of the loop structure of the three fire_all functions over constant-condition rules (after fixes 748fa6c, 024886f); std BinaryHeap::pop returns an Ord-maximum; "
                 "Instant::now strictly increasing between activations (enforced by the harness); consts.py; harness; extraction. Ruleflow groups and conflict strategies other than Salience are not modelled. Axioms: none.",
